@@ -4,7 +4,6 @@ import (
 	"bytes"
 	"context"
 	"fmt"
-	"net"
 	"os"
 	"os/exec"
 	"strings"
@@ -54,75 +53,88 @@ type Server struct {
 	werr   error
 }
 
-func freePort() (int, error) {
-	l, err := net.Listen("tcp", "127.0.0.1:0")
-	if err != nil {
-		return 0, err
+// listenPorts returns the TCP ports on which process pid listens (found
+// through its socket inodes in /proc), so that the harness never has to guess
+// a free port: the server is started on port 0 and asked where it ended up.
+func listenPorts(pid int) []int {
+	inodes := map[string]bool{}
+	fds, _ := os.ReadDir(fmt.Sprintf("/proc/%d/fd", pid))
+	for _, fd := range fds {
+		l, err := os.Readlink(fmt.Sprintf("/proc/%d/fd/%s", pid, fd.Name()))
+		if err == nil && strings.HasPrefix(l, "socket:[") {
+			inodes[strings.TrimSuffix(strings.TrimPrefix(l, "socket:["), "]")] = true
+		}
 	}
-	p := l.Addr().(*net.TCPAddr).Port
-	l.Close()
-	return p, nil
+	var ports []int
+	for _, f := range []string{"/proc/net/tcp", "/proc/net/tcp6"} {
+		b, err := os.ReadFile(f)
+		if err != nil {
+			continue
+		}
+		for _, line := range strings.Split(string(b), "\n")[1:] {
+			fs := strings.Fields(line)
+			if len(fs) < 10 || fs[3] != "0A" || !inodes[fs[9]] {
+				continue
+			}
+			k := strings.LastIndexByte(fs[1], ':')
+			var port int
+			if _, err := fmt.Sscanf(fs[1][k+1:], "%X", &port); err == nil {
+				ports = append(ports, port)
+			}
+		}
+	}
+	return ports
 }
 
-// StartServer starts `updog server` on a free loopback port for the given
-// index file (use a private copy: the server holds the file lock) and waits
-// until it answers.  extra are additional CLI flags, e.g. "-c=false", "-p".
+// StartServer starts `updog server` for the given index file (use a private
+// copy: the server holds a file lock) on kernel-chosen loopback ports and
+// waits until the gRPC port of THIS process answers.  extra are additional
+// CLI flags, e.g. "-c=false", "-p".
 func StartServer(index string, extra ...string) (*Server, error) {
+	args := append([]string{"server", "-l", "127.0.0.1:0", "-d", "127.0.0.1:0", "-f", index}, extra...)
+	cmd := exec.Command(UpdogBin(), args...)
+	out := &lockedBuf{}
+	cmd.Stdout, cmd.Stderr = out, out
+	cmd.Env = append(os.Environ(), "GORACE=halt_on_error=1 exitcode=66")
+	if err := cmd.Start(); err != nil {
+		return nil, err
+	}
+	s := &Server{Cmd: cmd, out: out, done: make(chan struct{})}
+	go func() { s.werr = cmd.Wait(); close(s.done) }()
 	var lastErr error
-	for attempt := 0; attempt < 5; attempt++ {
-		port, err := freePort()
-		if err != nil {
-			return nil, err
-		}
-		addr := fmt.Sprintf("127.0.0.1:%d", port)
-		args := append([]string{"server", "-l", addr, "-d", "127.0.0.1:0", "-f", index}, extra...)
-		cmd := exec.Command(UpdogBin(), args...)
-		out := &lockedBuf{}
-		cmd.Stdout, cmd.Stderr = out, out
-		cmd.Env = append(os.Environ(), "GORACE=halt_on_error=1 exitcode=66")
-		if err := cmd.Start(); err != nil {
-			return nil, err
-		}
-		s := &Server{Cmd: cmd, Addr: addr, out: out, done: make(chan struct{})}
-		go func() { s.werr = cmd.Wait(); close(s.done) }()
-		// wait for the listener before creating the client (a refused first
-		// connection attempt would put the gRPC client into a 1 s back-off)
-		for i := 0; i < 400 && s.Alive(); i++ {
-			if nc, derr := net.DialTimeout("tcp", addr, time.Second); derr == nil {
-				nc.Close()
-				break
+	tried := map[int]bool{}
+	for i := 0; i < 1500 && s.Alive(); i++ {
+		for _, port := range listenPorts(cmd.Process.Pid) {
+			if tried[port] {
+				continue
 			}
-			time.Sleep(10 * time.Millisecond)
-		}
-		conn, err := grpc.NewClient(addr, grpc.WithTransportCredentials(insecure.NewCredentials()),
-			grpc.WithDefaultCallOptions(grpc.MaxCallRecvMsgSize(256<<20), grpc.MaxCallSendMsgSize(256<<20)))
-		if err != nil {
-			s.Stop()
-			return nil, err
-		}
-		s.Conn, s.Client = conn, pb.NewQueryServiceClient(conn)
-		ready := false
-		for i := 0; i < 200 && s.Alive(); i++ {
+			addr := fmt.Sprintf("127.0.0.1:%d", port)
+			conn, err := grpc.NewClient(addr, grpc.WithTransportCredentials(insecure.NewCredentials()),
+				grpc.WithDefaultCallOptions(grpc.MaxCallRecvMsgSize(256<<20), grpc.MaxCallSendMsgSize(256<<20)))
+			if err != nil {
+				lastErr = err
+				continue
+			}
+			client := pb.NewQueryServiceClient(conn)
 			ctx, cancel := context.WithTimeout(context.Background(), 2*time.Second)
-			_, err := s.Client.Query(ctx, &pb.QueryRequest{})
+			_, err = client.Query(ctx, &pb.QueryRequest{})
 			cancel()
 			if err == nil {
-				ready = true
-				break
+				s.Addr, s.Conn, s.Client = addr, conn, client
+				return s, nil
 			}
+			// not the gRPC port (the debug HTTP listener), or not ready yet
 			lastErr = err
-			time.Sleep(25 * time.Millisecond)
+			conn.Close()
+			if strings.Contains(err.Error(), "Unavailable") || strings.Contains(err.Error(), "DeadlineExceeded") {
+				tried[port] = true
+			}
 		}
-		if ready {
-			return s, nil
-		}
-		lastErr = fmt.Errorf("server not ready (alive=%v, last rpc error %v): %s", s.Alive(), lastErr, s.Output())
-		s.Stop()
-		if !strings.Contains(s.Output(), "address already in use") {
-			break
-		}
+		time.Sleep(10 * time.Millisecond)
 	}
-	return nil, lastErr
+	err := fmt.Errorf("server not ready (alive=%v, last rpc error %v): %s", s.Alive(), lastErr, s.Output())
+	s.Stop()
+	return nil, err
 }
 
 func (s *Server) Alive() bool {
